@@ -283,26 +283,48 @@ def run_query(b, q, mem_gb):
 NATIVE_FLAGS = ['-std=c++20', '-O1', '-g', '-fsanitize=address,undefined', '-fno-omit-frame-pointer', '-w']
 
 
+def dispatch_source(entries, path, pre=''):
+    """C file with vf_dispatch(): calls the entry named by $VF_ENTRY_NAME"""
+    L = ['#include <string.h>', '#include <stdlib.h>', '#include <stdio.h>', pre]
+    for en in entries:
+        L.append('void %s(void);' % en)
+    L.append('void vf_dispatch(void){ const char* n = getenv("VF_ENTRY_NAME"); if (!n) { puts("VF_ENTRY_NAME not set"); exit(3); }')
+    for en in entries:
+        L.append('  if (!strcmp(n, "%s")) { %s(); return; }' % (en, en))
+    L.append('  puts("unknown entry"); exit(3); }')
+    open(path, 'w').write('\n'.join(L) + '\n')
+
+
+def driver_entries(fam):
+    return sorted(set(re.findall(r'\bQ\s+(q_[A-Za-z0-9_]+)\s*\(', open(fam.driver).read())))
+
+
 def native_build(b, entry, outdir):
-    """g++ ASan/UBSan build of the same kernel.cpp + driver.cpp (replay, DESIGN.md 1.8)"""
+    """g++ ASan/UBSan build of the same kernel.cpp + driver.cpp (replay, DESIGN.md 1.8); all entries, run-time dispatch"""
     os.makedirs(outdir, exist_ok=True)
-    exe = os.path.join(outdir, 'replay_' + entry)
+    exe = os.path.join(outdir, 'replay_native')
     inc = ['-I' + os.path.join(REPO, 'include'), '-I' + ENGINE, '-I' + b.fam.dir]
-    rt = os.path.join(outdir, 'rt_%s.o' % entry)
-    rc, o, e, s, to = sh(['gcc', '-c', '-O1', '-g', '-fsanitize=address,undefined', '-DVF_ENTRY=' + entry, os.path.join(ENGINE, 'vf_rt_native.c'), '-o', rt], timeout=120)
+    rt = os.path.join(outdir, 'rt.o')
+    disp = os.path.join(outdir, 'dispatch.c')
+    ents = b.entries or [entry]
+    dispatch_source(ents, disp)
+    rc, o, e, s, to = sh(['gcc', '-c', '-O1', '-g', '-fsanitize=address,undefined', '-DVF_ENTRY=vf_dispatch', os.path.join(ENGINE, 'vf_rt_native.c'), '-o', rt], timeout=120)
     if rc != 0:
         return None, 'rt compile failed: ' + e[-2000:]
-    cmd = ['g++'] + NATIVE_FLAGS + inc + b.defs() + ['-DVF_NATIVE=1'] + list(b.fam.kernel_flags) + [b.fam.kernel, b.fam.driver, rt, '-o', exe]
+    dobj = os.path.join(outdir, 'dispatch.o')
+    sh(['gcc', '-c', '-O1', disp, '-o', dobj], timeout=120)
+    rt = [rt, dobj]
+    cmd = ['g++'] + NATIVE_FLAGS + inc + b.defs() + ['-DVF_NATIVE=1'] + list(b.fam.kernel_flags) + [b.fam.kernel, b.fam.driver] + rt + ['-o', exe]
     rc, o, e, s, to = sh(cmd, timeout=600)
     if rc != 0:
         return None, 'native build failed: ' + e[-3000:]
     return exe, ''
 
 
-def native_run(exe, inputs, timeout=20):
+def native_run(exe, inputs, timeout=20, entry=None):
     inp = exe + '.in.%d' % os.getpid() + '.%d' % random.randrange(1 << 30)
     open(inp, 'w').write('\n'.join(str(v) for v in inputs) + '\n')
-    env = dict(os.environ, VF_INPUT=inp, ASAN_OPTIONS='detect_leaks=0:abort_on_error=0:halt_on_error=1', UBSAN_OPTIONS='print_stacktrace=0')
+    env = dict(os.environ, VF_INPUT=inp, VF_ENTRY_NAME=entry or '', ASAN_OPTIONS='detect_leaks=0:abort_on_error=0:halt_on_error=1', UBSAN_OPTIONS='print_stacktrace=0')
     rc, o, e, s, to = sh([exe], timeout=timeout, env=env)
     try:
         os.unlink(inp)
@@ -334,36 +356,36 @@ def validate_translation(b, entries, nvec, seed, outdir):
     diffs = []
     rng = random.Random(seed)
     inc = ['-I' + os.path.join(REPO, 'include'), '-I' + ENGINE, '-I' + b.fam.dir]
+    ex_t = os.path.join(outdir, 'tr')
+    ex_o = os.path.join(outdir, 'or')
+    dt = os.path.join(outdir, 'dispatch_t.c')
+    dispatch_source(b.entries, dt, 'void ll_init_K(void); void ll_init_D(void);')
+    open(dt, 'a').write('void vf_native_entry(void){ ll_init_K(); ll_init_D(); vf_dispatch(); }\n')
+    cmd = ['gcc', '-O1', '-w', '-fwrapv', '-fno-strict-aliasing', '-DVF_TRANSLATED=1', '-DVF_ENTRY=vf_native_entry', '-I' + ENGINE, os.path.join(b.dir, 'K.c'), os.path.join(b.dir, 'D.c'),
+           dt, os.path.join(ENGINE, 'vf_rt_native.c'), '-lm', '-lstdc++', '-o', ex_t]
+    rc, o, e, s, to = sh(cmd, timeout=600)
+    if rc != 0:
+        return 0, ['translated C does not compile natively (%s): %s' % (cfg_key(b.cfg), e[-600:])]
+    do = os.path.join(outdir, 'dispatch_o.c')
+    dispatch_source(b.entries, do)
+    rt = os.path.join(outdir, 'rto.o')
+    sh(['gcc', '-c', '-O1', '-DVF_ENTRY=vf_dispatch', os.path.join(ENGINE, 'vf_rt_native.c'), '-o', rt], timeout=120)
+    cmd = ['g++', '-std=c++20', '-O1', '-w'] + inc + b.defs() + ['-DVF_NATIVE=1'] + list(b.fam.kernel_flags) + [b.fam.kernel, b.fam.driver, rt, '-x', 'c', do, '-o', ex_o]
+    rc, o, e, s, to = sh(cmd, timeout=600)
+    if rc != 0:
+        return 0, ['original does not compile natively (%s): %s' % (cfg_key(b.cfg), e[-600:])]
     for entry in entries:
-        ex_t = os.path.join(outdir, 'tr_' + entry)
-        ex_o = os.path.join(outdir, 'or_' + entry)
-        cmd = ['gcc', '-O1', '-w', '-fwrapv', '-fno-strict-aliasing', '-DVF_TRANSLATED=1', '-DVF_ENTRY=' + entry, '-I' + ENGINE, os.path.join(b.dir, 'K.c'), os.path.join(b.dir, 'D.c'),
-               os.path.join(b.dir, 'main_native.c'), os.path.join(ENGINE, 'vf_rt_native.c'), '-lm', '-lstdc++', '-o', ex_t]
-        open(os.path.join(b.dir, 'main_native.c'), 'w').write('void ll_init_K(void); void ll_init_D(void); void %s(void);\nvoid vf_native_entry(void){ ll_init_K(); ll_init_D(); %s(); }\n' % (entry, entry))
-        cmd[cmd.index('-DVF_ENTRY=' + entry)] = '-DVF_ENTRY=vf_native_entry'
-        rc, o, e, s, to = sh(cmd, timeout=300)
-        if rc != 0:
-            diffs.append('translated C does not compile natively for %s: %s' % (entry, e[-600:]))
-            continue
-        rt = os.path.join(outdir, 'rto_%s.o' % entry)
-        sh(['gcc', '-c', '-O1', '-DVF_ENTRY=' + entry, os.path.join(ENGINE, 'vf_rt_native.c'), '-o', rt], timeout=120)
-        cmd = ['g++', '-std=c++20', '-O1', '-w'] + inc + b.defs() + ['-DVF_NATIVE=1'] + list(b.fam.kernel_flags) + [b.fam.kernel, b.fam.driver, rt, '-o', ex_o]
-        rc, o, e, s, to = sh(cmd, timeout=600)
-        if rc != 0:
-            diffs.append('original does not compile natively for %s: %s' % (entry, e[-600:]))
-            continue
         for i in range(nvec):
             small = rng.random() < 0.7
-            vec = [(rng.randrange(0, 6) if small and rng.random() < 0.8 else rng.choice([0, 1, 2, 3, 0x7f, 0x80, 0xff, 0x7fffffff, 0x80000000, 0xffffffff, 2**63, 2**64 - 1, rng.randrange(2**64)])) for _ in range(96)]
+            vec = [(rng.randrange(0, 6) if small and rng.random() < 0.8 else rng.choice([0, 1, 2, 3, 0x7f, 0x80, 0xff, 0x7fffffff, 0x80000000, 0xffffffff, 2**63, 2**64 - 1, rng.randrange(2**64)])) for _ in range(128)]
             outs = []
             for ex in (ex_t, ex_o):
                 inp = ex + '.in'
                 open(inp, 'w').write('\n'.join(map(str, vec)) + '\n')
-                rc, o, e, s, to = sh([ex], timeout=20, env=dict(os.environ, VF_INPUT=inp))
+                rc, o, e, s, to = sh([ex], timeout=20, env=dict(os.environ, VF_INPUT=inp, VF_ENTRY_NAME=entry))
                 outs.append((rc, o))
             n += 1
             if outs[0] != outs[1]:
-                # native UB (e.g. out-of-object read) may legitimately differ; only report when the original run is clean
                 diffs.append('%s cfg=%s vec#%d: translated rc=%s out=%r vs original rc=%s out=%r' % (entry, cfg_key(b.cfg), i, outs[0][0], outs[0][1][-200:], outs[1][0], outs[1][1][-200:]))
     return n, diffs
 
@@ -387,7 +409,7 @@ def do_replay(path):
     if not exe:
         print('replay build failed:', err)
         return 3
-    reasons, o, e = native_run(exe, rp['inputs'])
+    reasons, o, e = native_run(exe, rp['inputs'], entry=rp['entry'])
     print('replay %s entry=%s cfg=%s inputs=%s' % (rp['family'], rp['entry'], cfg_key(rp['cfg']), rp['inputs']))
     print('solver reported:', '; '.join('%s (%s)' % (a, bb) for a, bb in rp['failed'][:4]))
     if reasons:
@@ -477,19 +499,25 @@ def check(prop, tier, families=None, only_entry=None, verbose=False):
         nonlocal nrep
         nrep += 1
         path = write_replay(prop, fam, q, bb, r, nrep)
-        key = (bb.key, q['entry'])
+        key = bb.key
         if key not in native_cache:
             native_cache[key] = native_build(bb, q['entry'], os.path.join(bb.dir, 'native'))
         exe, err = native_cache[key]
         if not exe:
             return path, None, ['native replay build failed: ' + err[-400:]]
-        reasons, o, e = native_run(exe, r.inputs or [])
+        reasons, o, e = native_run(exe, r.inputs or [], entry=q['entry'])
         return path, bool(reasons), reasons
 
-    for (fam, q, bb, r, k) in results:
+    max_replays = int(os.environ.get('VF_MAX_REPLAYS', '6'))
+    for (fam, q, bb, r, k) in sorted(results, key=lambda x: (x[0].name, x[1]['entry'], cfg_key(x[2].cfg))):
         if r.status == 'ok':
             continue
         if r.status in ('fail', 'bound'):
+            if len(native_cache) >= max_replays and bb.key not in native_cache and r.status == 'fail':
+                nrep += 1
+                r.replay = write_replay(prop, fam, q, bb, r, nrep)
+                violations.append((fam, q, bb, r, ['native replay skipped (more than %d distinct configurations already replayed in this run; use ./vf replay)' % max_replays]))
+                continue
             path, conf, reasons = replay_result(fam, q, bb, r)
             r.replay, r.confirmed = path, conf
             if r.status == 'bound' and not conf:
